@@ -158,8 +158,12 @@ void c04_rminus(vf::Tape & t, vf::Ctx & ctx)
     }
     J.col(k) = (lp - lm) / (2 * h);
   }
-  ctx.le("dr_rminus(e)==d/dx log(y^-1 x)", rel(orc::toL(smooth::dr_rminus<G>(e)), J), kTol<G> + 1e-9);
-  const MatL g = eL.transpose() * J;
+  // x -> log(y^-1 x) has the right-Jacobian dr_expinv(e) at e = log(y^-1 x): the judge is the long-double series
+  // reference; the central differences of the refined log (an independent derivation, truncation error O(h^2 |t|):
+  // 1.3e-7 at |t| = 800) cross-check that reference at 1e-5
+  ctx.le("reference: finite differences of log agree with inverse(dr_exp series)", rel(J, Jguess), 1e-5);
+  ctx.le("dr_rminus(e)==d/dx log(y^-1 x)", rel(orc::toL(smooth::dr_rminus<G>(e)), Jguess), kTol<G> + 1e-9);
+  const MatL g = eL.transpose() * Jguess;
   ctx.le("dr_rminus_squarednorm(e)==e^T d/dx log(y^-1 x)", rel(orc::toL(smooth::dr_rminus_squarednorm<G>(e)), g, 1e-300), kTol<G> + 1e-9);
 }
 
